@@ -1081,6 +1081,17 @@ func extractNumericValue(data E) (float64, bool) {
 	return 0, false
 }
 
+// This implements "Number::exponentiate" from the JavaScript specification.
+// It differs from Go's "math.Pow" in two special cases: the result is NaN if
+// the exponent is NaN (Go returns 1 for a base of 1) and if the exponent is
+// infinite and the base is 1 or -1 (Go returns 1).
+func jsPow(base float64, exponent float64) float64 {
+	if math.IsNaN(exponent) || (math.IsInf(exponent, 0) && math.Abs(base) == 1) {
+		return math.NaN()
+	}
+	return math.Pow(base, exponent)
+}
+
 func extractNumericValues(left Expr, right Expr) (float64, float64, bool) {
 	if a, ok := extractNumericValue(left.Data); ok {
 		if b, ok := extractNumericValue(right.Data); ok {
@@ -1264,7 +1275,7 @@ func FoldBinaryOperator(loc logger.Loc, e *EBinary) Expr {
 
 	case BinOpPow:
 		if left, right, ok := extractNumericValues(e.Left, e.Right); ok {
-			return Expr{Loc: loc, Data: &ENumber{Value: math.Pow(left, right)}}
+			return Expr{Loc: loc, Data: &ENumber{Value: jsPow(left, right)}}
 		}
 
 	case BinOpShl:
